@@ -4,12 +4,26 @@
    What is a theorem and what is not:
    * The property is FALSE for the dimension-wise strategy as it stands (known findings, reproduced on the implementation on
      every run): C04_dw_rebalancing_refuted / C04_dw_version2_refuted are model witnesses (vm_compute), replayed on the code.
-   * dimension-wise, positive direction (C04_dw_exact_if_integral_partial): in EVERY state whose trees tile the domain (C06)
-     and whose scheme satisfies the C01 invariant, a hierarchical hat is integrated exactly whenever a level vector tau at
-     which every stripe contains the hat's kinks lies in the index set. FULL STATEMENT NOT PROVED: (i) the converse (exact =>
-     minimal tau in the index set), (ii) the same for the interpolant (the 1D fact C04_interp_hat_on_grid is proved, the
-     assembly is not), (iii) the history invariant "versions 6/7/8 without rebalancing keep tau of every initial hat inside
-     the index set" - decided per explored state by the verified checker dw_keeps_initial_space (C04_dw_keeps_initial_space_sound).
+   * dimension-wise, positive direction (C04_dw_exact_if_integral_partial, C04_dw_exact_if_interp_partial): in EVERY state
+     whose trees tile the domain (C06) and whose scheme satisfies the C01 invariant, a hierarchical hat is integrated exactly
+     and its combined interpolant reproduces it at every point of the domain whenever a level vector tau at which every stripe
+     contains the hat's kinks lies in the index set. FULL STATEMENT NOT PROVED: (i) the converse (exact => minimal tau in the
+     index set), (ii) the history invariant "versions 6/7/8 without rebalancing keep tau of every initial hat inside the index
+     set" for ALL histories - proved only _bounded (C04_dw_norebalance_keeps_bounded: d = 2, unit square, all histories of
+     single-interval splits up to depth 2 (lmin 1, lmax 2) / depth 1 (lmin 2, lmax 3) for versions 6, 7, 8, boundary on/off;
+     depth 3 resp. 2 were also evaluated with vm_compute during development (all true) but are not kept: coqchk replays them
+     ~15x slower) and
+     otherwise decided per explored state by the verified checker dw_keeps_initial_space (C04_dw_keeps_initial_space_sound).
+     NOTE: "the stripe of a fixed component level only grows from step to step" is FALSE for versions 6/7/8 (raising lmax_d
+     coarsens the untouched part of the tree at the same component level; observed on the implementation), so the invariant
+     is genuinely about tau moving inside a growing index set.
+   * dimension-wise, products of linear functions (C04_dw_linear_exact): exact in EVERY state whose trees tile the domain, for the
+     trapezoidal rule with boundary points and for the modified basis (there under the side condition stripes_mod_ok: a
+     3-point stripe must be (a, mid point, b) - the modified 3-point rule (b-a) f(x_1) is exact for linear f only then).
+   * all of these hold in EVERY reachable state of EVERY history, rebalancing included (theorems C04_dw_reachable_...): in particular every
+     product of linear functions (= the level-0 part of the initial space with boundary points) provably stays exact under
+     every history, versions 2,3,6,7 - what rebalancing rotations and versions 2/3 lose are hats of level >= 1.
+   * the entry point evaluates tabulated versions of the model functions; they are equal (C04_entry_tabulated_equal).
    * extend-split: C04_es_multilinear_exact - every area with a valid local combination (C07 checker) contributes the exact
      integral of every multilinear monomial (C08 tensor trapezoid), hence the combination is exact provided the monomial
      moments of the areas add up to the moment of the domain; the two split operations preserve that sum
@@ -22,6 +36,8 @@ From SG Require Import Model.StdCombi Model.Trap Model.Tensor Model.LocalGrids M
 From SG Require Import Model.DimWise Model.DimWiseInterp Model.DimWiseExact
      Proofs.SchemeInv Proofs.StdGrid Proofs.HatFacts Proofs.StdHier1D Proofs.StdHierTrap Proofs.DimWiseCombi
      Proofs.CombiProduct Proofs.HatOnGrid Proofs.DimWiseExactProofs Proofs.ESExact.
+From SG Require Import Model.DimWiseFast Model.DimWiseLinMod Proofs.DimWiseFast Proofs.DimWiseExactInterp Proofs.DimWiseLinear
+     Proofs.DimWiseBounded Proofs.DimWiseBounded12 Proofs.DimWiseBoundedMain Proofs.DimWiseReachable.
 Import ListNotations.
 Local Open Scope Qc_scope.
 
@@ -64,6 +80,86 @@ Theorem C04_dw_exact_if_integral_partial : forall a b o st j i tau,
   dw_combi_integral o false st a b (hat_list a b j i) = Some (hat_exact a b j i).
 Proof. exact dw_exact_if_integral. Qed.
 Print Assumptions C04_dw_exact_if_integral_partial.
+
+(* ---- dimension-wise: the 'if' direction for the interpolant (PARTIAL, see header) ---- *)
+Theorem C04_dw_exact_if_interp_partial : forall a b o st j i tau x,
+  Inv (st_scheme st) -> TilesOK a b st ->
+  length a = s_dim (st_scheme st) -> length b = s_dim (st_scheme st) -> length j = s_dim (st_scheme st) ->
+  hat_ok o st a b (s_lmin (st_scheme st)) 0 j i tau ->
+  In tau (index_set (st_scheme st)) ->
+  length x = s_dim (st_scheme st) -> in_box a b 0 x ->
+  dw_combi_interp o st a b (fun_hat a b j i) x = fun_hat a b j i x.
+Proof. exact dw_exact_if_interp. Qed.
+Print Assumptions C04_dw_exact_if_interp_partial.
+
+(* ---- dimension-wise: products of linear functions are integrated exactly in every tiling state ---- *)
+Theorem C04_dw_linear_exact : forall a b o mb st cf,
+  Inv (st_scheme st) -> TilesOK a b st ->
+  length a = s_dim (st_scheme st) -> length b = s_dim (st_scheme st) -> length cf = s_dim (st_scheme st) ->
+  stripes_defined o st (s_lmin (st_scheme st)) (s_dim (st_scheme st)) ->
+  ((o_boundary o = true /\ mb = false) \/
+   (o_boundary o = false /\ mb = true /\ stripes_mod_ok o st a b (s_lmin (st_scheme st)) (s_dim (st_scheme st)))) ->
+  dw_combi_integral o mb st a b (lin_fns cf) = Some (lin_exact a b cf).
+Proof. exact dw_linear_exact. Qed.
+Print Assumptions C04_dw_linear_exact.
+(* modified basis: the side condition as a verified checker (evaluated in every explored state of the modified-basis histories) *)
+Theorem C04_dw_linear_exact_modified_checked : forall a b o st cf,
+  Inv (st_scheme st) -> TilesOK a b st ->
+  length a = s_dim (st_scheme st) -> length b = s_dim (st_scheme st) -> length cf = s_dim (st_scheme st) ->
+  stripes_defined o st (s_lmin (st_scheme st)) (s_dim (st_scheme st)) ->
+  o_boundary o = false -> lin_mod_okb o st a b = true ->
+  dw_combi_integral o true st a b (lin_fns cf) = Some (lin_exact a b cf).
+Proof. exact dw_linear_exact_modified_checked. Qed.
+Print Assumptions C04_dw_linear_exact_modified_checked.
+
+(* ---- dimension-wise: the state-level theorems hold in EVERY reachable state of EVERY history (any options, rebalancing included;
+        C06 invariant + C01 invariant of every reachable state, Proofs/DimWiseTotal.v) ---- *)
+Theorem C04_dw_reachable_linear_exact : forall n lmin lmax a b o steps st0 st cf,
+  Forall2 (fun p q => p < q) a b ->
+  dw_init (S n) lmin lmax a b = Some st0 -> dw_run o steps st0 = Some st ->
+  (o_version o = 2 \/ o_version o = 3 \/ o_version o = 6 \/ o_version o = 7)%Z ->
+  o_boundary o = true -> length cf = S n ->
+  dw_combi_integral o false st a b (lin_fns cf) = Some (lin_exact a b cf).
+Proof. exact dw_reachable_linear_exact. Qed.
+Theorem C04_dw_reachable_linear_exact_modified : forall n lmin lmax a b o steps st0 st cf,
+  Forall2 (fun p q => p < q) a b ->
+  dw_init (S n) lmin lmax a b = Some st0 -> dw_run o steps st0 = Some st ->
+  (o_version o = 2 \/ o_version o = 3 \/ o_version o = 6 \/ o_version o = 7)%Z ->
+  o_boundary o = false -> lin_mod_okb o st a b = true -> length cf = S n ->
+  dw_combi_integral o true st a b (lin_fns cf) = Some (lin_exact a b cf).
+Proof. exact dw_reachable_linear_exact_modified. Qed.
+Theorem C04_dw_reachable_exact_if_partial : forall n lmin lmax a b o steps st0 st j i tau,
+  Forall2 (fun p q => p < q) a b ->
+  dw_init (S n) lmin lmax a b = Some st0 -> dw_run o steps st0 = Some st ->
+  length j = S n -> hat_ok o st a b lmin 0 j i tau -> In tau (index_set (st_scheme st)) ->
+  dw_combi_integral o false st a b (hat_list a b j i) = Some (hat_exact a b j i) /\
+  forall x, length x = S n -> in_box a b 0 x -> dw_combi_interp o st a b (fun_hat a b j i) x = fun_hat a b j i x.
+Proof. exact dw_reachable_exact_if. Qed.
+Print Assumptions C04_dw_reachable_linear_exact.
+Print Assumptions C04_dw_reachable_linear_exact_modified.
+Print Assumptions C04_dw_reachable_exact_if_partial.
+
+(* ---- dimension-wise, no rebalancing, versions 6/7/8: history invariant, BOUNDED (see header) ---- *)
+(* bounded_cases = (version, boundary, lmin, lmax, depth): (v,bd,1,2,2) and (v,bd,2,3,1) for v in 6,7,8, bd on/off *)
+Theorem C04_dw_norebalance_keeps_bounded : forall v bd lmin lmax n,
+  In (v, bd, lmin, lmax, n) bounded_cases ->
+  forall st0 path st, dw_init 2 lmin lmax unit_a unit_b = Some st0 -> (length path <= n)%nat ->
+    run_path (b_opts v bd) path st0 = Some st ->
+    forall j i, In (j, i) (initial_hats (st_dim st) lmin lmax bd) ->
+      dw_combi_integral (b_opts v bd) false st unit_a unit_b (hat_list unit_a unit_b j i) = Some (hat_exact unit_a unit_b j i).
+Proof. exact dw_norebalance_keeps_bounded. Qed.
+Print Assumptions C04_dw_norebalance_keeps_bounded.
+
+(* ---- what the entry point evaluates (tabulated stripes) equals the model functions of the theorems above ---- *)
+Theorem C04_entry_tabulated_equal : forall o st lo n a b lmin lmax,
+  (forall mb gs, dw_combi_integral_fast o mb st (ctab o st lo n) a b gs = dw_combi_integral o mb st a b gs) /\
+  (forall f x, dw_combi_interp_fast o st (ctab o st lo n) a b f x = dw_combi_interp o st a b f x) /\
+  keeps_of a b (initial_hats (st_dim st) lmin lmax (o_boundary o))
+           (map (fun ji => dw_combi_integral o false st a b (hat_list a b (fst ji) (snd ji)))
+                (initial_hats (st_dim st) lmin lmax (o_boundary o)))
+  = dw_keeps_initial_space o st a b lmin lmax.
+Proof. exact entry_tabulated_equal. Qed.
+Print Assumptions C04_entry_tabulated_equal.
 
 (* ---- extend-split ---- *)
 Theorem C04_es_area_integral_exact : forall a b bx gs exps,
@@ -137,30 +233,131 @@ Definition ex_state : option dw_state :=
   | None => None
   end.
 
-Example C04_dw_exact_if_nonvacuous :
-  exists st, ex_state = Some st /\ st_lmax st = [3; 2]%Z /\
-    hat_ok (ex_opts 6 false true) st ex_a ex_b (s_lmin (st_scheme st)) 0 [1; 2]%Z [1; 1]%Z [1; 2]%Z /\
+Definition ex_o := ex_opts 6 false true.
+Example C04_ex_state_facts :
+  exists st, ex_state = Some st /\ st_lmax st = [3; 2]%Z /\ s_dim (st_scheme st) = 2%nat /\
+    Inv (st_scheme st) /\ TilesOK ex_a ex_b st /\
+    hat_ok ex_o st ex_a ex_b (s_lmin (st_scheme st)) 0 [1; 2]%Z [1; 1]%Z [1; 2]%Z /\
     In [1; 2]%Z (index_set (st_scheme st)) /\
-    dw_combi_integral (ex_opts 6 false true) false st ex_a ex_b (hat_list ex_a ex_b [1; 2]%Z [1; 1]%Z)
-    = Some (hat_exact ex_a ex_b [1; 2]%Z [1; 1]%Z).
+    stripes_defined ex_o st (s_lmin (st_scheme st)) 2.
 Proof.
   destruct ex_state as [st|] eqn:E; [|vm_compute in E; discriminate].
   exists st. split; [reflexivity|].
   assert (Some_inj : forall (A : Type) (x y : A), Some x = Some y -> x = y) by (intros A x y H; injection H; auto).
   assert (H1 : option_map st_lmax ex_state = Some [3; 2]%Z) by (vm_compute; reflexivity).
-  assert (H2 : option_map (fun st => hat_okb (ex_opts 6 false true) st ex_a ex_b (s_lmin (st_scheme st)) 0 [1; 2]%Z [1; 1]%Z [1; 2]%Z)
+  assert (H2 : option_map (fun st => hat_okb ex_o st ex_a ex_b (s_lmin (st_scheme st)) 0 [1; 2]%Z [1; 1]%Z [1; 2]%Z)
                           ex_state = Some true) by (vm_compute; reflexivity).
   assert (H3 : option_map (fun st => mem [1; 2]%Z (index_set (st_scheme st))) ex_state = Some true) by (vm_compute; reflexivity).
   assert (H4 : option_map (fun st => s_dim (st_scheme st)) ex_state = Some 2%nat) by (vm_compute; reflexivity).
-  rewrite E in H1, H2, H3, H4. cbn [option_map] in H1, H2, H3, H4.
-  apply Some_inj in H1. apply Some_inj in H2. apply Some_inj in H3. apply Some_inj in H4.
-  assert (Hok := C04_hat_okb_sound _ _ _ _ _ _ _ _ _ H2).
-  assert (Hin : In [1; 2]%Z (index_set (st_scheme st))) by (apply Proofs.SchemeBasics.mem_In; exact H3).
-  split; [exact H1|]. split; [exact Hok|]. split; [exact Hin|].
-  apply C04_dw_exact_if_integral_partial with (tau := [1; 2]%Z); try (rewrite H4; reflexivity); try assumption.
-  - unfold ex_state in E. destruct (dw_init 2 1 2 ex_a ex_b) as [st0|] eqn:E0; [|discriminate].
-    eapply (Proofs.C03Main.dw_reachable_scheme_inv 1 1 2 ex_a ex_b); eassumption.
-  - apply Proofs.C03Main.DwInv_TilesOK. unfold ex_state in E. destruct (dw_init 2 1 2 ex_a ex_b) as [st0|] eqn:E0; [|discriminate].
-    eapply (Proofs.DimWiseInv.dw_reachable_inv 1 1 2 ex_a ex_b (ex_opts 6 false true)); [| reflexivity | exact E0 | exact E].
-    repeat constructor.
+  assert (H5 : option_map (fun st => stripes_definedb ex_o st (s_lmin (st_scheme st)) 2) ex_state = Some true) by (vm_compute; reflexivity).
+  rewrite E in H1, H2, H3, H4, H5. cbn [option_map] in H1, H2, H3, H4, H5.
+  apply Some_inj in H1. apply Some_inj in H2. apply Some_inj in H3. apply Some_inj in H4. apply Some_inj in H5.
+  split; [exact H1|]. split; [exact H4|].
+  split.
+  { unfold ex_state in E. destruct (dw_init 2 1 2 ex_a ex_b) as [st0|] eqn:E0; [|discriminate].
+    eapply (Proofs.C03Main.dw_reachable_scheme_inv 1 1 2 ex_a ex_b); eassumption. }
+  split.
+  { apply Proofs.C03Main.DwInv_TilesOK. unfold ex_state in E. destruct (dw_init 2 1 2 ex_a ex_b) as [st0|] eqn:E0; [|discriminate].
+    eapply (Proofs.DimWiseInv.dw_reachable_inv 1 1 2 ex_a ex_b ex_o); [| reflexivity | exact E0 | exact E].
+    repeat constructor. }
+  split; [exact (C04_hat_okb_sound _ _ _ _ _ _ _ _ _ H2)|].
+  split; [apply Proofs.SchemeBasics.mem_In; exact H3|].
+  apply stripes_definedb_sound. exact H5.
 Qed.
+
+(* the integral of the hat of level (1,2), index (1,1) is exact (1/8) in that state *)
+Example C04_dw_exact_if_nonvacuous :
+  exists st, ex_state = Some st /\
+    dw_combi_integral ex_o false st ex_a ex_b (hat_list ex_a ex_b [1; 2]%Z [1; 1]%Z) = Some (hat_exact ex_a ex_b [1; 2]%Z [1; 1]%Z).
+Proof.
+  destruct C04_ex_state_facts as (st & E & _ & H4 & HI & HT & Hok & Hin & _). exists st. split; [exact E|].
+  apply C04_dw_exact_if_integral_partial with (tau := [1; 2]%Z); try (rewrite H4; reflexivity); assumption.
+Qed.
+
+(* its combined interpolant at the point (3/8, 5/16) (not a grid point) is the hat's value there *)
+Example C04_dw_exact_if_interp_nonvacuous :
+  exists st, ex_state = Some st /\
+    dw_combi_interp ex_o st ex_a ex_b (fun_hat ex_a ex_b [1; 2]%Z [1; 1]%Z) [q 3 8; q 5 16] = q 9 16.
+Proof.
+  destruct C04_ex_state_facts as (st & E & _ & H4 & HI & HT & Hok & Hin & _). exists st. split; [exact E|].
+  rewrite (C04_dw_exact_if_interp_partial ex_a ex_b ex_o st [1; 2]%Z [1; 1]%Z [1; 2]%Z [q 3 8; q 5 16]);
+    try (rewrite H4; reflexivity); try assumption.
+  - vm_compute. reflexivity.
+  - apply in_boxb_sound. vm_compute. reflexivity.
+Qed.
+
+(* the product (2 x + 1)(3 - y) is integrated exactly (2 * 5/2 = 5) in that state *)
+Example C04_dw_linear_exact_nonvacuous :
+  exists st, ex_state = Some st /\
+    dw_combi_integral ex_o false st ex_a ex_b (lin_fns [(q 2 1, q 1 1); (q (-1) 1, q 3 1)]) = Some (q 5 1).
+Proof.
+  destruct C04_ex_state_facts as (st & E & _ & H4 & HI & HT & _ & _ & Hdef). exists st. split; [exact E|].
+  rewrite (C04_dw_linear_exact ex_a ex_b ex_o false st [(q 2 1, q 1 1); (q (-1) 1, q 3 1)]);
+    try (rewrite H4; reflexivity); try assumption.
+  - f_equal. apply Qc_is_canon. vm_compute. reflexivity.
+  - rewrite H4. exact Hdef.
+  - left. split; reflexivity.
+Qed.
+
+(* modified basis (boundary off) in the same state: the checker accepts, (2 x + 1)(3 - y) is integrated exactly *)
+Example C04_dw_linear_exact_modified_nonvacuous :
+  exists st, ex_state = Some st /\ lin_mod_okb (ex_opts 6 false false) st ex_a ex_b = true /\
+    dw_combi_integral (ex_opts 6 false false) true st ex_a ex_b (lin_fns [(q 2 1, q 1 1); (q (-1) 1, q 3 1)]) = Some (q 5 1).
+Proof.
+  destruct C04_ex_state_facts as (st & E & _ & H4 & HI & HT & _ & _ & _). exists st. split; [exact E|].
+  assert (Some_inj : forall (A : Type) (x y : A), Some x = Some y -> x = y) by (intros A x y H; injection H; auto).
+  assert (H5 : option_map (fun st => stripes_definedb (ex_opts 6 false false) st (s_lmin (st_scheme st)) 2) ex_state = Some true)
+    by (vm_compute; reflexivity).
+  assert (H6 : option_map (fun st => lin_mod_okb (ex_opts 6 false false) st ex_a ex_b) ex_state = Some true) by (vm_compute; reflexivity).
+  rewrite E in H5, H6. cbn [option_map] in H5, H6. apply Some_inj in H5. apply Some_inj in H6.
+  split; [exact H6|].
+  rewrite (C04_dw_linear_exact_modified_checked ex_a ex_b (ex_opts 6 false false) st [(q 2 1, q 1 1); (q (-1) 1, q 3 1)]);
+    try (rewrite H4; reflexivity); try assumption.
+  - f_equal. apply Qc_is_canon. vm_compute. reflexivity.
+  - rewrite H4. apply stripes_definedb_sound. exact H5.
+  - reflexivity.
+Qed.
+
+(* the history-level theorem on a history WITH a rebalancing rotation (the witness history of C04_dw_rebalancing_refuted): the hats of level >= 1
+   are lost there, the product (2 x + 1)(3 - y) is still integrated exactly *)
+Example C04_dw_reachable_linear_exact_nonvacuous :
+  exists st0 st, dw_init 2 1 2 ex_a ex_b = Some st0 /\ dw_run (ex_opts 6 true true) ex_steps_rot st0 = Some st /\
+    dw_keeps_initial_space (ex_opts 6 true true) st ex_a ex_b 1 2 = false /\
+    dw_combi_integral (ex_opts 6 true true) false st ex_a ex_b (lin_fns [(q 2 1, q 1 1); (q (-1) 1, q 3 1)]) = Some (q 5 1).
+Proof.
+  destruct (dw_init 2 1 2 ex_a ex_b) as [st0|] eqn:E0; [|vm_compute in E0; discriminate].
+  destruct (dw_run (ex_opts 6 true true) ex_steps_rot st0) as [st|] eqn:E1.
+  - exists st0, st. split; [reflexivity|]. split; [exact E1|]. split.
+    + pose proof C04_dw_rebalancing_refuted as [H _]. unfold keeps_after in H. rewrite E0, E1 in H. cbv beta iota in H. injection H as H. exact H.
+    + rewrite (C04_dw_reachable_linear_exact 1 1 2 ex_a ex_b (ex_opts 6 true true) ex_steps_rot st0 st [(q 2 1, q 1 1); (q (-1) 1, q 3 1)]);
+        try assumption; try reflexivity.
+      * f_equal. apply Qc_is_canon. vm_compute. reflexivity.
+      * repeat constructor.
+      * right. right. left. reflexivity.
+  - exfalso. pose proof C04_dw_rebalancing_refuted as [H _]. unfold keeps_after in H. rewrite E0, E1 in H. cbv beta iota in H. discriminate.
+Qed.
+
+(* the bounded history invariant is not vacuous: a path of length 2 of the case (7, off, 1, 2, 2) *)
+Example C04_dw_norebalance_keeps_bounded_nonvacuous :
+  exists st0 st, dw_init 2 1 2 unit_a unit_b = Some st0 /\
+    run_path (b_opts 7 false) [(0, 3); (0, 4)]%nat st0 = Some st /\ st_lmax st = [4; 2]%Z.
+Proof.
+  destruct (dw_init 2 1 2 unit_a unit_b) as [st0|] eqn:E0; [|vm_compute in E0; discriminate].
+  destruct (run_path (b_opts 7 false) [(0, 3); (0, 4)]%nat st0) as [st|] eqn:E1.
+  - exists st0, st. split; [reflexivity|]. split; [exact E1|].
+    assert (H : match dw_init 2 1 2 unit_a unit_b with
+                | Some s0 => option_map st_lmax (run_path (b_opts 7 false) [(0, 3); (0, 4)]%nat s0)
+                | None => None end = Some [4; 2]%Z) by (vm_compute; reflexivity).
+    rewrite E0, E1 in H. injection H as H. exact H.
+  - exfalso.
+    assert (H : match dw_init 2 1 2 unit_a unit_b with
+                | Some s0 => match run_path (b_opts 7 false) [(0, 3); (0, 4)]%nat s0 with Some _ => true | None => false end
+                | None => false end = true) by (vm_compute; reflexivity).
+    rewrite E0, E1 in H. discriminate.
+Qed.
+
+Print Assumptions C04_es_area_integral_exact.
+Print Assumptions C04_moments_halves.
+Print Assumptions C04_dw_rebalancing_refuted.
+Print Assumptions C04_dw_version2_refuted.
+Print Assumptions C04_hat_okb_sound.
